@@ -1,7 +1,98 @@
+//! I/O-error engine (C11): fail any one of the directory-listing / open / seek / read calls
+//! made by recovery, transiently or persistently, and require a prompt `Err(IoError)`.
 use crate::case::Case;
 use crate::fault::Fault;
+use crate::model::Policy;
 use crate::run::Failure;
+use crate::simfs::{Class, Eff, Image, IoFault};
+use crate::world::{OpenFail, World};
 
-pub fn evaluate_ioerr(_prop: &str, _case: &Case, _fault: &Fault) -> Vec<Failure> {
-    Vec::new()
+pub const ERRNOS: [i32; 4] = [crate::simfs::EIO, crate::simfs::EACCES, crate::simfs::ENOENT, crate::simfs::EMFILE];
+
+#[derive(Clone, Debug)]
+pub struct Call {
+    pub index: usize,
+    pub class: Class,
+    pub target: String,
+    pub len: usize,
+}
+
+/// Fault-free recovery of `image`: the list of fs calls it makes (None if it does not open cleanly).
+pub fn baseline_calls(image: &Image, names: &[String], policy: Policy, knobs: &crate::model::Knobs) -> Option<Vec<Call>> {
+    let mut w = World::new(image, names.to_vec(), policy, knobs.clone());
+    w.fs.borrow_mut().set_budget(100_000);
+    if w.open().is_err() {
+        return None;
+    }
+    let fs = w.fs.borrow();
+    Some(
+        fs.trace
+            .iter()
+            .enumerate()
+            .map(|(i, e)| Call {
+                index: i,
+                class: e.eff.class(),
+                target: e.eff.target().unwrap_or("").to_string(),
+                len: if let Eff::Read { len, .. } = &e.eff { *len } else { 0 },
+            })
+            .collect(),
+    )
+}
+
+pub fn injectable(c: &Call) -> bool {
+    matches!(c.class, Class::ReadDir | Class::Stat | Class::Open | Class::Seek | Class::Read)
+}
+
+#[derive(Clone, Debug, PartialEq, Eq)]
+pub enum Verdict {
+    ReportedIo,
+    /// fault did not fire (call sequence diverged before it) — no verdict
+    NotFired,
+    Bad(&'static str, String),
+}
+
+pub fn inject(image: &Image, names: &[String], policy: Policy, knobs: &crate::model::Knobs, n_calls: usize, fault: &IoFault) -> Verdict {
+    let mut w = World::new(image, names.to_vec(), policy, knobs.clone());
+    {
+        let mut fs = w.fs.borrow_mut();
+        fs.faults.push(fault.clone());
+        fs.set_budget(n_calls + 50);
+    }
+    let res = w.open();
+    let fired = { let fs = w.fs.borrow(); fs.fired.ioerr + fs.fired.ioerr_sticky };
+    if fired == 0 {
+        return Verdict::NotFired;
+    }
+    match res {
+        Err(OpenFail::Io(_)) => Verdict::ReportedIo,
+        Ok(()) => Verdict::Bad("ok-after-io-error", "open returned Ok although a recovery I/O call had failed: the log was built from a partially read WAL".to_string()),
+        Err(OpenFail::Corruption) => Verdict::Bad("corruption-instead-of-io-error", "open reported Corruption instead of the I/O error".to_string()),
+        Err(OpenFail::Hang) => Verdict::Bad("retries-forever", format!("open did not return within {} file-system calls (fault-free recovery needs {}): it keeps retrying", n_calls + 50, n_calls)),
+        Err(OpenFail::Panic(m)) => Verdict::Bad("panic", format!("open panicked: {m}")),
+    }
+}
+
+/// Image left by the cleanly dropped history.
+pub fn final_image(case: &Case) -> Option<(Image, Vec<String>, Policy)> {
+    let mut d = crate::fault::eval_hist(case);
+    if !d.conformance_ok() {
+        return None;
+    }
+    d.world.close();
+    let policy = d.world.policy;
+    Some((d.world.image(), d.names.clone(), policy))
+}
+
+pub fn evaluate_ioerr(prop: &str, case: &Case, fault: &Fault) -> Vec<Failure> {
+    let Fault::IoErr { call, errno, persistent, consumed } = fault else { return Vec::new() };
+    let Some((image, names, policy)) = final_image(case) else { return Vec::new() };
+    let Some(calls) = baseline_calls(&image, &names, policy, &case.knobs) else { return Vec::new() };
+    let f = IoFault { at: *call, errno: *errno, persistent: *persistent, consumed: *consumed };
+    match inject(&image, &names, policy, &case.knobs, calls.len(), &f) {
+        Verdict::Bad(clause, detail) if prop == "C11" => {
+            let c = calls.get(*call);
+            vec![Failure { prop: "C11", clause: clause.to_string(), op_index: case.ops.len(), detail: format!("errno {} ({}) injected at recovery call {} {:?}: {}", errno, if *persistent { "persistent" } else { "transient" }, call, c.map(|c| (c.class, c.target.clone())), detail) }]
+        }
+        _ => Vec::new(),
+    }
 }
